@@ -208,6 +208,8 @@ func (w *mwWalker) expr(e ast.Expr) S {
 		parts := []S{w.expr(v.X), w.expr(v.Index)}
 		if ch, ok := w.chain(v.X); ok && strings.HasPrefix(ch, ".") { // a read of a field that is a map / slice
 			parts = append(parts, w.event("[]"+ch))
+		} else if _, isLocal := v.X.(*ast.Ident); isLocal && ok && ch == "" { // a lookup in a local map / slice (its name does not matter)
+			parts = append(parts, w.event("[]"))
 		}
 		return mkSeq(parts)
 	case *ast.SliceExpr:
